@@ -36,7 +36,8 @@ pub fn matrix_strategy(maxdim: usize) -> BoxedStrategy<Mat> {
 
 /// large sparse matrices: three- and four-digit indices, weights of two digits
 fn large_strategy(_t: Tier) -> BoxedStrategy<Mat> {
-    (prop_oneof![2 => 90usize..=130, 1 => 990usize..=1100, 1 => 1usize..=20], prop_oneof![2 => 90usize..=130, 1 => 990usize..=1100, 1 => 1usize..=20], 0usize..=300)
+    (prop_oneof![40 => 90usize..=130, 20 => 990usize..=1100, 20 => 1usize..=20, 1 => 65_537usize..=66_000], prop_oneof![40 => 90usize..=130, 20 => 990usize..=1100, 20 => 1usize..=20], 0usize..=300)
+        .prop_map(|(a, b, cnt)| if a > 60_000 { if cnt % 2 == 0 { (a, b.min(3), cnt.min(40)) } else { (b.min(3), a, cnt.min(40)) } } else { (a, b, cnt) })
         .prop_flat_map(|(rows, cols, cnt)| {
             // a few heavy lines so that weights reach two digits
             (proptest::collection::vec((any::<u16>(), any::<u16>()), cnt), proptest::collection::vec((any::<bool>(), any::<u16>(), prop_oneof![2 => proptest::collection::vec(any::<u16>(), 9..=14), 1 => proptest::collection::vec(any::<u16>(), 33..=80)]), 0..=2), Just((rows, cols)))
@@ -470,7 +471,7 @@ pub fn property() -> Property {
             }),
             Box::new(Sub {
                 name: "roundtrip-large",
-                rule: "large sparse matrices (dimensions 90..=130 or 990..=1100, occasionally 1..=20, up to 300 random ones plus up to two rows/columns of weight 9..=14 or 33..=80, insertion order random): indices of three and four digits, weights of two digits; same round-trip/format oracle",
+                rule: "large sparse matrices (dimensions 90..=130 or 990..=1100, occasionally 1..=20, one case in 80 with more than 65 536 rows or columns against at most 3 of the other kind, up to 300 random ones plus up to two rows/columns of weight 9..=14 or 33..=80, insertion order random): indices of three and four digits, weights of two digits; same round-trip/format oracle",
                 cases: |t| t.pick(20_000, 600_000),
                 strategy: large_strategy,
                 check: check_roundtrip,
